@@ -1939,7 +1939,41 @@ def eliminate_container_aliases(func, self_name, rebound_elsewhere):
     return n
 
 
-def table_get_to_chain(func):
+def constant_table_names(prog):
+    """names of class- or module-level tables whose every definition in the program is a dict display with class / function values
+    (never None), an empty display, an alias of the table of the same name (`payload_types = Base.payload_types`) or an `update` with
+    such a display at class / module level - and that no function writes to"""
+    good, bad = set(), set()
+
+    def display_ok(v):
+        return isinstance(v, ast.Dict) and all(k is not None for k in v.keys) and all(
+            isinstance(x, (ast.Name, ast.Attribute, ast.Lambda)) and not (isinstance(x, ast.Name) and x.id == 'None') for x in v.values)
+    for m in prog.modules.values():
+        for holder in [m.tree] + [c for c in ast.walk(m.tree) if isinstance(c, ast.ClassDef)]:
+            for st in holder.body:
+                if isinstance(st, ast.Assign) and len(st.targets) == 1 and isinstance(st.targets[0], ast.Name):
+                    nm = st.targets[0].id
+                    if display_ok(st.value) or (isinstance(st.value, ast.Attribute) and st.value.attr == nm):
+                        good.add(nm)
+                    else:
+                        bad.add(nm)
+                elif isinstance(st, ast.Expr) and isinstance(st.value, ast.Call) and isinstance(st.value.func, ast.Attribute) \
+                        and st.value.func.attr == 'update' and isinstance(st.value.func.value, ast.Name):
+                    if not (len(st.value.args) == 1 and not st.value.keywords and display_ok(st.value.args[0])):
+                        bad.add(st.value.func.value.id)
+        for fn in [x for x in ast.walk(m.tree) if isinstance(x, (ast.FunctionDef, ast.AsyncFunctionDef, ast.Lambda))]:
+            for x in ast.walk(fn):
+                if isinstance(x, ast.Subscript) and isinstance(x.ctx, (ast.Store, ast.Del)) and isinstance(x.value, (ast.Attribute, ast.Name)):
+                    bad.add(x.value.attr if isinstance(x.value, ast.Attribute) else x.value.id)
+                elif isinstance(x, ast.Attribute) and isinstance(x.ctx, (ast.Store, ast.Del)):
+                    bad.add(x.attr)
+                elif isinstance(x, ast.Call) and isinstance(x.func, ast.Attribute) and x.func.attr in ('update', 'setdefault', 'pop', 'popitem', 'clear') \
+                        and isinstance(x.func.value, (ast.Attribute, ast.Name)):
+                    bad.add(x.func.value.attr if isinstance(x.func.value, ast.Attribute) else x.func.value.id)
+    return good - bad
+
+
+def table_get_to_chain(func, const_tables=()):
     """`h = {k1: f1, k2: f2}.get(key)` directly followed by `if h is not None: BODY` (h only called, as `h(args)`, inside BODY)  ->
     `if key == k1: BODY[h := f1] elif key == k2: BODY[h := f2]`: the same calls under the same conditions, with no function value
     carried in a local.  Lambdas applied to plain arguments are replaced by their bodies.  Returns the number of tables rewritten."""
@@ -1957,6 +1991,38 @@ def table_get_to_chain(func):
             for h in getattr(st, 'handlers', []) or []:
                 visit(h.body)
             nxt = stmts[j + 1] if j + 1 < len(stmts) else None
+            # `h = cls.TABLE.get(k)` on a constant table of classes, then `if h is None: <leave>` or `if h is not None: BODY`
+            if (isinstance(st, ast.Assign) and len(st.targets) == 1 and isinstance(st.targets[0], ast.Name)
+                    and isinstance(st.value, ast.Call) and isinstance(st.value.func, ast.Attribute) and st.value.func.attr == 'get'
+                    and isinstance(st.value.func.value, ast.Attribute) and isinstance(st.value.func.value.value, ast.Name)
+                    and st.value.func.value.attr in const_tables and not st.value.keywords
+                    and (len(st.value.args) == 1 or (len(st.value.args) == 2 and isinstance(st.value.args[1], ast.Constant)
+                                                     and st.value.args[1].value is None))
+                    and isinstance(nxt, ast.If) and not nxt.orelse
+                    and isinstance(st.value.args[0], (ast.Name, ast.Attribute)) and not any(isinstance(x, ast.Call) for x in ast.walk(st.value.args[0]))):
+                name, tab, key = st.targets[0].id, st.value.func.value, st.value.args[0]
+                t = nxt.test
+                is_none = isinstance(t, ast.Compare) and len(t.ops) == 1 and isinstance(t.ops[0], ast.Is) and isinstance(t.left, ast.Name) \
+                    and t.left.id == name and isinstance(t.comparators[0], ast.Constant) and t.comparators[0].value is None
+                not_none = isinstance(t, ast.Compare) and len(t.ops) == 1 and isinstance(t.ops[0], ast.IsNot) and isinstance(t.left, ast.Name) \
+                    and t.left.id == name and isinstance(t.comparators[0], ast.Constant) and t.comparators[0].value is None
+                look = ast.Assign(targets=[st.targets[0]], value=ast.Subscript(value=tab, slice=key, ctx=ast.Load()), type_comment=None)
+                tr = None
+                if is_none and isinstance(nxt.body[-1], (ast.Return, ast.Raise, ast.Continue, ast.Break)) \
+                        and not any(isinstance(x, ast.Name) and x.id == name for b in nxt.body for x in ast.walk(b)):
+                    tr = ast.Try(body=[look], handlers=[ast.ExceptHandler(type=ast.Name(id='KeyError', ctx=ast.Load()), name=None, body=nxt.body)],
+                                 orelse=[], finalbody=[])
+                elif not_none and not any(isinstance(x, ast.Name) and x.id == name for later in stmts[j + 2:] for x in ast.walk(later)):
+                    tr = ast.Try(body=[look], handlers=[ast.ExceptHandler(type=ast.Name(id='KeyError', ctx=ast.Load()), name=None, body=[ast.Pass()])],
+                                 orelse=nxt.body, finalbody=[])
+                if tr is not None:
+                    ast.copy_location(tr, st)
+                    ast.copy_location(look, st)
+                    ast.fix_missing_locations(tr)
+                    stmts[j:j + 2] = [tr]
+                    count += 1
+                    j += 1
+                    continue
             if (isinstance(st, ast.Assign) and len(st.targets) == 1 and isinstance(st.targets[0], ast.Name)
                     and isinstance(st.value, ast.Call) and isinstance(st.value.func, ast.Attribute) and st.value.func.attr == 'get'
                     and isinstance(st.value.func.value, ast.Dict) and not st.value.keywords
@@ -3542,7 +3608,7 @@ class Inliner:
                     k = getattr_tables(fi.node)
                     if k:
                         self.report.setdefault('getattr_tables', {})[q] = k
-                    k = table_get_to_chain(fi.node)
+                    k = table_get_to_chain(fi.node, constant_table_names(prog))
                     if k:
                         self.report.setdefault('table_get_chains', {})[q] = k
                     _Accessors.needs_struct = False
@@ -3686,12 +3752,13 @@ class Inliner:
     def _condition_locals(self):
         self.report['counting_loops'] = {}
         self.report['lambda_applications'] = {}
+        ctabs = constant_table_names(self.prog)
         for q, fi in self.prog.functions.items():
             if isinstance(fi.node, ast.FunctionDef):
                 k = beta_reduce(fi.node)
                 if k:
                     self.report['lambda_applications'][q] = k
-                k = table_get_to_chain(fi.node)
+                k = table_get_to_chain(fi.node, ctabs)
                 if k:
                     self.report.setdefault('table_get_chains', {})[q] = self.report.get('table_get_chains', {}).get(q, 0) + k
                 k = inline_bound_method_locals(fi.node)
